@@ -157,14 +157,17 @@ PROPS = {
         "assumed": [],
     },
     "C05": {
-        "verus": [("verify_base", ["verify_membership", "verify_nonmembership", "NodeLabel.value", "NodeLabel.root", "NodeLabel.new"])],
+        "verus": [("verify_base", ["verify_membership", "verify_nonmembership", "NodeLabel.value", "NodeLabel.root", "NodeLabel.new"]), "trie_lemmas"],
         "verus_thorough": ["node_label"],
         "search": True,
         "always_search": True,
         "scope": "verifier side: verify_membership accepts exactly when the bottom-up Merkle fold of the proof hashes to the root; verify_nonmembership "
                  "accepts only proofs anchored at the deepest matching node (anchor is a prefix of the label, is the lcp of its two children, no child is a "
-                 "prefix of the label, children hash to the anchor, anchor is a member). Completeness of server-side generation is not decided.",
-        "trusted": ["T4 configuration hashes are deterministic functions of their byte inputs (uninterpreted); collision resistance only for the meaning of the predicates, not for the contracts",
+                 "prefix of the label, children hash to the anchor, anchor is a member). Meaning (unit trie_lemmas, spec level): for every well-formed full binary compressed trie T, under "
+                 "injective parent / label hashes and leaf-interior domain separation (hypotheses, not axioms), mem_ok against T's hash proves a node of T with that label and hash, and "
+                 "the verifier's non-membership facts prove that the queried label is NOT a leaf of T (also for an anchor at the root). Completeness of server-side generation is not decided.",
+        "trusted": ["T4 configuration hashes are deterministic functions of their byte inputs (uninterpreted); collision resistance enters only as explicit hypotheses of the meaning lemmas, not the contracts",
+                    "the meaning lemmas model tries in which every interior node has two children (a root with a single child - all leaves sharing the first bit - is not modelled)",
                     "NodeLabel::is_prefix_of / get_longest_common_prefix contracts are proved in unit node_label (C17)"],
         "assumed": [],
     },
